@@ -1015,7 +1015,7 @@ CS_RULES = {'ReadsSeeLastWrite': 'C09', 'WriteReachesApp': 'C09', 'ShapeRule': '
 
 
 def cs_cfg(perms, maxlist, weak=(), tail='', consts=''):
-    return 'CONSTANTS\n  Perms = %s\n  Tok = {"v0", "v1", "v2"}\n  Ids = {"e1", "e2", "wo", "missing"}\n  MaxList = %d\n  Weak = %s\n  %s\nCHECK_DEADLOCK FALSE\n%s\n' % (tla_set(perms), maxlist, tla_set(weak), consts, tail)
+    return 'CONSTANTS\n  Perms = %s\n  Tok = {"v0", "v1", "v2"}\n  Ids = {"e1", "e2", "wo", "missing"}\n  WIds = {"w1", "w2", "ro", "missing"}\n  MaxList = %d\n  Weak = %s\n  %s\nCHECK_DEADLOCK FALSE\n%s\n' % (tla_set(perms), maxlist, tla_set(weak), consts, tail)
 
 
 def charstack_gen(run):
@@ -1026,21 +1026,25 @@ def charstack_gen(run):
     n = 4 if thorough else 3
     words = run.generate('CharStackGen', cfgtext=cs_cfg(["pr", "pw", "ev"], 1, consts='MaxLen = %d' % n, tail=t + 'INVARIANT EmitWord\nCONSTRAINT WordBound'), timeout=1200)
     # register words and list reads are separate kinds of case
-    reg = [w for w in words if not any(s['a'] == 'ReadList' for s in w)]
+    reg = [w for w in words if not any(s['a'] in ('ReadList', 'WriteList') for s in w)]
     reg = [json.loads(x) for x in sorted(set(json.dumps([{k: v for k, v in s.items() if k not in ('exp', 'ids')} for s in w]) for w in reg))]
     nreg = len(reg)
     reg = sample(reg, 1500 if thorough else 240, run.seed)
     import itertools
     kinds = ["e1", "e2", "wo", "missing"]
     lists = [[dict(a='ReadList', tok='none', ids=list(c))] for k in range(1, (4 if thorough else 3) + 1) for c in itertools.product(kinds, repeat=k)]
+    # list writes: every list over {writable, writable, read-only, missing}, a writable cell at most once per request
+    wkinds = ["w1", "w2", "ro", "missing"]
+    lists += [[dict(a='WriteList', tok='none', ids=list(c))] for k in range(1, (4 if thorough else 3) + 1) for c in itertools.product(wkinds, repeat=k)
+              if list(c).count('w1') <= 1 and list(c).count('w2') <= 1]
     attacks = []
-    for perms, g in ((["pw"], "status_in_every_entry"), (["pr"], "write_needs_pw"), (["pr", "pw"], "subscribe_needs_ev"), (["pr", "pw"], "subscription_per_accessory_and_id")):
+    for perms, g in ((["pr"], "refused_write_reported"), (["pw"], "status_in_every_entry"), (["pr"], "write_needs_pw"), (["pr", "pw"], "subscribe_needs_ev"), (["pr", "pw"], "subscription_per_accessory_and_id")):
         a = run.generate('CharStackGen', cfgtext=cs_cfg(perms, 2, weak=[g], tail=t + 'INVARIANT NoAttack\nVIEW AttackView'), expect_violation=True)
         if not a:
             raise ToolTrouble('no attack word for guard %s' % g)
         w = a[0]
-        if any(s['a'] == 'ReadList' for s in w):
-            lists.append([s for s in w if s['a'] == 'ReadList'][:1])
+        if any(s['a'] in ('ReadList', 'WriteList') for s in w):
+            lists.append([s for s in w if s['a'] in ('ReadList', 'WriteList')][:1])
         else:
             attacks.append((g, [{k: v for k, v in s.items() if k not in ('exp', 'ids')} for s in w]))
     must = [[dict(a='Sub', tok='none'), dict(a='LocalSet', tok='v1'), dict(a='LocalSet', tok='v2')],
@@ -1055,10 +1059,12 @@ def charstack_family(run, replay=None):
     def extra(lines, behs):
         cells = set(x.get('cell') for x in lines if x.get('cell'))
         return dict(characteristics=len(cells), remote_reads=sum(1 for x in lines if x.get('a') == 'RemoteRead'), remote_writes=sum(1 for x in lines if x.get('a') == 'RemoteWrite'),
-                    accessories_reads=sum(1 for x in lines if x.get('a') == 'AccRead'), list_reads=sum(1 for x in lines if x.get('ev') == 'list'),
+                    accessories_reads=sum(1 for x in lines if x.get('a') == 'AccRead'), list_reads=sum(1 for x in lines if x.get('ev') == 'list'), list_writes=sum(1 for x in lines if x.get('ev') == 'wlist'),
                     subscriptions=sum(1 for x in lines if x.get('a') == 'Sub'))
 
     def fp(rule, b, line):
+        if line.get('ev') == 'wlist':
+            return '%s/wlist=%s' % (rule, ','.join(sorted(set(line.get('kinds', [])))))
         if line.get('ev') == 'list':
             return '%s/list=%s' % (rule, ','.join(sorted(set(line.get('kinds', [])))))
         perms = line.get('perms', [])
@@ -1071,7 +1077,7 @@ def charstack_family(run, replay=None):
                                        'value tokens are concretised per format: both booleans, integers at the declared minimum / maximum, floats at bounds and one step, tricky UTF-8 strings (quotes, backslashes, HTML characters, control characters, non-BMP runes), base64 payloads up to several frames',
                                        'numbers are compared numerically (1 and 1.0 are the same float), strings byte for byte'],
                           rule_text='TLC-generated operation words (local set, remote write, remote read, /accessories read, subscribe, unsubscribe over 3 value tokens) applied to every characteristic of the library through the full stack, and every id list up to the stated length over {readable, readable, write-only, missing}; distinct = abstract word; non-trivial = contains a write followed by a read, or a list with a failing id',
-                          nontrivial=lambda b: (b.get('kind') == 'list' and any(k in ('wo', 'missing') for k in b['steps'][0].get('ids', []))) or len([s for s in b['steps'] if s.get('a') in ('LocalSet', 'RemoteWrite')]) >= 1,
+                          nontrivial=lambda b: (b.get('kind') == 'list' and any(k in ('wo', 'ro', 'missing') for k in b['steps'][0].get('ids', []))) or len([s for s in b['steps'] if s.get('a') in ('LocalSet', 'RemoteWrite')]) >= 1,
                           extra_cov=extra, fpfun=fp)
 
 
